@@ -1,34 +1,390 @@
 package main
 
 import (
+	"fmt"
+	"go/types"
+	"strings"
+
 	"golang.org/x/tools/go/ssa"
 )
 
-// IterObj / IterState: ORM iterators (ghost sequence model), see DESIGN.md 3.1.
+// ORM iterators, index keys, range deletes (assumed ORM contract, DESIGN.md 3.1).
+//
+// List/ListRange return a ghost sequence of n >= 0 distinct rows of the table: exactly the rows
+// whose index fields match the prefix / lie in the range. Next advances the position, Value
+// returns a fresh message object for the row at the current position. An iterator may only be
+// read while its table is unmodified since List (otherwise the function leaves the subset).
+
+const iterTrust = "builtin:cosmos-sdk/orm iterator contract (List/ListRange/Next/Value/Close, DeleteBy/DeleteRange)"
+
 type IterObj struct {
-	Table *Table
-	Name  string
+	Table  *Table
+	Name   string
+	N      string   // length of the ghost sequence
+	Match  func(st *State, key string) string // membership predicate of a key, evaluated in st
+	Writes int      // write counter of the table at creation
+	Keys   []string // key constants handed out by Value (distinct positions)
+	First  string
+	Cond   string // condition under which the iterator is valid (List succeeded)
+	IdxFields []*TField
+	MatchSig  string            // syntactic signature of the membership predicate
+	Psum      map[string]string // ghost-sum component -> prefix-sum function  psum(gkey, i) = sum of the terms of rows 0..i-1 with that ghost key
 }
 
 type IterState struct {
 	Pos string
 }
 
-func (x *Exec) iterInvoke(st *State, fr *frame, it IterV, method string, args []Val, k func(st *State, v Val)) bool {
-	subsetf("ORM iterator method %s not modelled yet", method)
-	return true
+func (x *Exec) tableOfIndexKeyType(t types.Type) *Table {
+	n, ok := types.Unalias(t).(*types.Named)
+	if !ok {
+		return nil
+	}
+	name := n.Obj().Name()
+	var best *Table
+	for _, tb := range x.s.Spec.Tables {
+		if strings.HasPrefix(name, tb.Name) && n.Obj().Pkg() == tb.Row.Obj().Pkg() {
+			if best == nil || len(tb.Name) > len(best.Name) {
+				best = tb
+			}
+		}
+	}
+	return best
 }
 
 func (x *Exec) iterStatic(st *State, fr *frame, fn *ssa.Function, args []Val, k func(st *State, v Val)) bool {
+	if fn.Signature.Recv() == nil || fn.Pkg == nil || !strings.HasPrefix(fn.Pkg.Pkg.Path(), "github.com/regen-network/regen-ledger/api/") {
+		return false
+	}
+	rt := fn.Signature.Recv().Type()
+	rn, ok := types.Unalias(rt).(*types.Named)
+	if !ok {
+		return false
+	}
+	rname := rn.Obj().Name()
+	switch {
+	case strings.HasSuffix(rname, "IndexKey") && strings.HasPrefix(fn.Name(), "With"):
+		t := x.tableOfIndexKeyType(rt)
+		if t == nil {
+			return false
+		}
+		ik := IndexKey{Table: t.Name}
+		for i, p := range fn.Params[1:] {
+			f := findField(t.Fields, p.Name())
+			if f == nil {
+				subsetf("index key field %s of table %s not found", p.Name(), t.Name)
+			}
+			ik.Fields = append(ik.Fields, f.Go)
+			ik.Vals = append(ik.Vals, args[i+1])
+		}
+		k(st, ik)
+		return true
+	case strings.HasSuffix(rname, "Iterator") && fn.Name() == "Value":
+		r, ok := args[0].(Rec)
+		if !ok || len(r.F) == 0 {
+			return false
+		}
+		iv, ok := r.F[0].(IterV)
+		if !ok {
+			return false
+		}
+		x.iterValue(st, fr, iv.It, k)
+		return true
+	}
 	return false
 }
 
+// idxFieldTerm: the ordering/equality term of an index field of the row under key.
+// Timestamps are compared as (seconds, nanos) with nil = (0,0): one Int  sec*1e9+nanos.
+func (x *Exec) idxFieldTerm(st *State, t *Table, f *TField, key string) string {
+	if f.Kind == "msg" {
+		set := fmt.Sprintf("(select %s %s)", x.s.comp(st, t.Name+"."+f.Go+".set"), key)
+		sec := fmt.Sprintf("(select %s %s)", x.s.comp(st, t.Name+"."+f.Go+".Seconds"), key)
+		nn := fmt.Sprintf("(select %s %s)", x.s.comp(st, t.Name+"."+f.Go+".Nanos"), key)
+		return ite(set, fmt.Sprintf("(tsof %s %s)", sec, nn), "0")
+	}
+	return x.fieldAt(st, t, f, key)
+}
+
+func (x *Exec) idxValTerm(st *State, v Val) string {
+	for {
+		iv, ok := v.(Iface)
+		if !ok || iv.Dyn == nil {
+			break
+		}
+		v = iv.V
+	}
+	switch a := v.(type) {
+	case Sc:
+		return a.T
+	case Slice:
+		return x.s.bcode(st, a)
+	case Ptr: // *timestamppb.Timestamp
+		if a.Loc == nil {
+			return "0"
+		}
+		r, ok := x.s.load(st, a).(Rec)
+		if !ok {
+			subsetf("index key value of kind %T", v)
+		}
+		var sec, nn string
+		stt := a.Loc.Typ.Underlying().(*types.Struct)
+		for i := 0; i < stt.NumFields(); i++ {
+			switch stt.Field(i).Name() {
+			case "Seconds":
+				sec = r.F[i].(Sc).T
+			case "Nanos":
+				nn = r.F[i].(Sc).T
+			}
+		}
+		if sec == "" {
+			subsetf("index key pointer value is not a timestamp")
+		}
+		return ite(a.Nil, "0", fmt.Sprintf("(tsof %s %s)", sec, nn))
+	}
+	subsetf("index key value of kind %T", v)
+	return ""
+}
+
+func unwrapIndexKey(v Val) (IndexKey, bool) {
+	for {
+		switch a := v.(type) {
+		case IndexKey:
+			return a, true
+		case Iface:
+			if a.Dyn == nil {
+				return IndexKey{}, false
+			}
+			v = a.V
+		default:
+			return IndexKey{}, false
+		}
+	}
+}
+
+func (x *Exec) fieldsOf(t *Table, names []string) []*TField {
+	var out []*TField
+	for _, n := range names {
+		for _, f := range t.Fields {
+			if f.Go == n {
+				out = append(out, f)
+			}
+		}
+	}
+	return out
+}
+
+// matcher builds the membership predicate for List (prefix) or ListRange / DeleteRange (from,to).
+func (x *Exec) matcher(st *State, t *Table, m string, args []Val) (func(st *State, key string) string, []*TField) {
+	if m == "List" || m == "DeleteBy" {
+		ik, ok := unwrapIndexKey(args[0])
+		if !ok {
+			subsetf("ORM %s.%s with an unknown index key", t.Name, m)
+		}
+		fs := x.fieldsOf(t, ik.Fields)
+		var vals []string
+		for _, v := range ik.Vals {
+			vals = append(vals, x.idxValTerm(st, v))
+		}
+		return func(st2 *State, key string) string {
+			var cs []string
+			for i, f := range fs {
+				cs = append(cs, eq(x.idxFieldTerm(st2, t, f, key), vals[i]))
+			}
+			return and(cs...)
+		}, fs
+	}
+	from, ok1 := unwrapIndexKey(args[0])
+	to, ok2 := unwrapIndexKey(args[1])
+	if !ok1 || !ok2 || len(from.Fields) != 1 || len(to.Fields) != 1 || from.Fields[0] != to.Fields[0] {
+		subsetf("ORM %s.%s: only single-field ranges are modelled", t.Name, m)
+	}
+	fs := x.fieldsOf(t, from.Fields)
+	lo, hi := x.idxValTerm(st, from.Vals[0]), x.idxValTerm(st, to.Vals[0])
+	return func(st2 *State, key string) string {
+		v := x.idxFieldTerm(st2, t, fs[0], key)
+		return fmt.Sprintf("(and (<= %s %s) (<= %s %s))", lo, v, v, hi)
+	}, fs
+}
+
 func (x *Exec) ormList(st *State, fr *frame, t *Table, m string, args []Val, k func(st *State, v Val)) {
-	subsetf("ORM %s.%s not modelled yet", t.Name, m)
+	s := x.s
+	s.Assumed[iterTrust] = true
+	match, fs := x.matcher(st, t, m, args)
+	io := s.ioFail(st)
+	eid := s.freshErrID()
+	n := s.declare(s.fresh("iter.n"), "Int")
+	s.fact("(>= " + n + " 0)")
+	it := &IterObj{Table: t, Name: s.fresh("iter:" + t.Name), N: n, Match: match, Writes: st.wcount[t.Name], Cond: not(io), IdxFields: fs,
+		MatchSig: match(st, "k!sig"), Psum: map[string]string{}}
+	st.iters[it] = &IterState{Pos: "(- 1)"}
+	for _, g := range s.Spec.GhostSums {
+		if g.Table != t.Name {
+			continue
+		}
+		f := q(s.fresh("psum:" + g.Comp))
+		gks := keySortOf(len(g.Key))
+		s.decls = append(s.decls, fmt.Sprintf("(declare-fun %s (%s Int) Real)", f, gks))
+		it.Psum[g.Comp] = f
+		st.assume(fmt.Sprintf("(forall ((g!q %s)) (! (= (%s g!q 0) 0.0) :pattern ((%s g!q 0))))", gks, f, f))
+	}
+	// completeness for emptiness: n = 0 iff no row matches (quantified, assumed ORM contract)
+	ksort := keySortOf(len(t.PK))
+	hasArr := s.comp(st, t.Name+".has")
+	st.assume(implies(and(not(io), eq(n, "0")),
+		fmt.Sprintf("(forall ((k!q %s)) (! (=> (select %s k!q) (not %s)) :pattern ((select %s k!q))))", ksort, hasArr, match(st, "k!q"), hasArr)))
+	k(st, Rec{F: []Val{Rec{F: []Val{IterV{it}}}, Err{ite(io, eid, "0"), ite(io, eid, "0")}}})
 }
 
+func (x *Exec) iterInvoke(st *State, fr *frame, iv IterV, method string, args []Val, k func(st *State, v Val)) bool {
+	it := iv.It
+	is := st.iters[it]
+	if is == nil {
+		subsetf("iterator used outside the path that created it")
+	}
+	switch method {
+	case "Next":
+		// advances while elements remain; an exhausted iterator stays at position n
+		np := "(+ " + is.Pos + " 1)"
+		if is.Pos == "(- 1)" {
+			np = "0"
+		}
+		more := fmt.Sprintf("(< %s %s)", np, it.N)
+		st.iters[it] = &IterState{Pos: ite(more, np, it.N)}
+		k(st, scBool(more))
+	case "Close":
+		k(st, Err{"0", "0"})
+	default:
+		subsetf("ORM iterator method %s not modelled", method)
+	}
+	return true
+}
+
+func (x *Exec) iterValue(st *State, fr *frame, it *IterObj, k func(st *State, v Val)) {
+	s := x.s
+	is := st.iters[it]
+	if is == nil {
+		subsetf("iterator used outside the path that created it")
+	}
+	t := it.Table
+	if st.wcount[t.Name] != it.Writes {
+		subsetf("iterator over table %s read after the table was modified", t.Name)
+	}
+	// the row at the current position: a key constant with the facts of the sequence
+	key := s.declare(s.fresh("iter.key:"+t.Name), keySortOf(len(t.PK)))
+	inRange := fmt.Sprintf("(and (<= 0 %s) (< %s %s))", is.Pos, is.Pos, it.N)
+	st.assume(implies(inRange, and(fmt.Sprintf("(select %s %s)", s.comp(st, t.Name+".has"), key), it.Match(st, key))))
+	x.wfInstance(st, t, key)
+	// prefix sums of the ghost aggregates over the sequence (lemma L-sum along the iteration)
+	for _, g := range s.Spec.GhostSums {
+		f, ok := it.Psum[g.Comp]
+		if !ok {
+			continue
+		}
+		gk, term := x.ghostTerm(st, g, x.storedFields(st, t, key))
+		gks := keySortOf(len(g.Key))
+		pc := s.declare(s.fresh("iter.at"), "Int")
+		pn := s.declare(s.fresh("iter.next"), "Int")
+		st.assume(and(eq(pc, is.Pos), eq(pn, "(+ "+is.Pos+" 1)")))
+		st.assume(implies(inRange, fmt.Sprintf("(forall ((g!q %s)) (! (= (%s g!q %s) (+ (%s g!q %s) (ite (= g!q %s) %s 0.0))) :pattern ((%s g!q %s))))",
+			gks, f, pn, f, pc, gk, term, f, pn)))
+	}
+	// first element is minimal in index order (single ordered field after the equality prefix is
+	// not distinguished here: minimality is stated for the last index field when the match is a prefix)
+	x.iterOrderFacts(st, it, is, key)
+	io := s.ioFail(st)
+	eid := s.freshErrID()
+	obj := x.rowObject(st, t, key)
+	st.names["iter.lastkey:"+it.Name] = Sc{key, keySortOf(len(t.PK))}
+	k(st, Rec{F: []Val{Ptr{Loc: obj, Nil: "false"}, Err{ite(io, eid, "0"), ite(io, eid, "0")}}})
+}
+
+// iterOrderFacts is extended by properties that need ordering (C11); default: none.
+func (x *Exec) iterOrderFacts(st *State, it *IterObj, is *IterState, key string) {}
+
+func (x *Exec) havocIter(st *State, it *IterObj, is *IterState) {
+	s := x.s
+	p := s.declare(s.fresh("iter.pos"), "Int")
+	s.fact("(>= " + p + " (- 1))")
+	st.iters[it] = &IterState{Pos: p}
+	// iterator protocol invariant (checked as loopN.*.iterbound): not exhausted at the loop head
+	st.assume(iterBound(p, it.N))
+}
+
+// DeleteBy / DeleteRange: removes exactly the matching rows. The post-state arrays are fresh,
+// characterised pointwise (quantified, with patterns): has' k = has k and not match k.
+// Ghost sums over the table become fresh arrays constrained by the deleted set's contribution
+// (see ghost `rem` in C12); unique index maps are cleared for the deleted rows.
 func (x *Exec) ormDeleteRange(st *State, fr *frame, t *Table, m string, args []Val, k func(st *State, v Val)) {
-	subsetf("ORM %s.%s not modelled yet", t.Name, m)
+	s := x.s
+	s.Assumed[iterTrust] = true
+	match, _ := x.matcher(st, t, m, args)
+	io := s.ioFail(st)
+	eid := s.freshErrID()
+	st2 := st.Clone()
+	st2.assume(io)
+	st.assume(not(io))
+	pre := st.Clone()
+	ksort := keySortOf(len(t.PK))
+	hasOld := s.comp(pre, t.Name+".has")
+	s.havocComp(st, t.Name+".has")
+	hasNew := s.comp(st, t.Name+".has")
+	st.assume(fmt.Sprintf("(forall ((k!q %s)) (! (= (select %s k!q) (and (select %s k!q) (not %s))) :pattern ((select %s k!q))))",
+		ksort, hasNew, hasOld, match(pre, "k!q"), hasNew))
+	for _, u := range t.Unique {
+		// cleared entries: characterised through the rows (left abstract: fresh maps consistent with WF instances)
+		s.havocComp(st, t.Name+".by"+u.Name+".has")
+		s.havocComp(st, t.Name+".by"+u.Name+".key")
+	}
+	for _, g := range s.Spec.GhostSums {
+		if g.Table != t.Name {
+			continue
+		}
+		// G'[gk] = G[gk] - removed(gk), removed >= 0 given by the ghost function of this delete
+		old := s.comp(pre, g.Comp)
+		s.havocComp(st, g.Comp)
+		nw := s.comp(st, g.Comp)
+		rem := q(s.fresh("removed:" + g.Comp))
+		gks := keySortOf(len(g.Key))
+		s.decls = append(s.decls, fmt.Sprintf("(declare-fun %s (%s) Real)", rem, gks))
+		st.assume(fmt.Sprintf("(forall ((g!q %s)) (! (= (select %s g!q) (- (select %s g!q) (%s g!q))) :pattern ((select %s g!q))))", gks, nw, old, rem, nw))
+		st.names["removed:"+g.Comp] = Sc{rem, "fun"}
+		// the removed contribution equals the total over an iterator with the same range on the unmodified table
+		for it := range pre.iters {
+			if it.Table == t && it.Writes == pre.wcount[t.Name] && it.MatchSig == match(pre, "k!sig") {
+				if f, ok := it.Psum[g.Comp]; ok {
+					st.assume(fmt.Sprintf("(forall ((g!q %s)) (! (= (%s g!q) (%s g!q %s)) :pattern ((%s g!q))))", gks, rem, f, it.N, rem))
+				}
+			}
+		}
+	}
+	st.wcount[t.Name]++
+	k(st, Err{"0", "0"})
+	k(st2, Err{eid, eid})
 }
 
-func (x *Exec) havocIter(st *State, it *IterObj, is *IterState) {}
+func iterBound(pos, n string) string {
+	return fmt.Sprintf("(or (= %s (- 1)) (< %s %s))", pos, pos, n)
+}
+
+// iterOf resolves a contract expression denoting an iterator variable.
+func (e *Env) iterOf(x *Sx) (*IterObj, *IterState) {
+	v := e.val(x)
+	for {
+		switch a := v.(type) {
+		case Rec:
+			if len(a.F) == 0 {
+				e.errf("not an iterator: %s", x)
+			}
+			v = a.F[0]
+			continue
+		case IterV:
+			is := e.cur.iters[a.It]
+			if is == nil {
+				e.errf("iterator %s is not live here", x)
+			}
+			return a.It, is
+		}
+		e.errf("not an iterator: %s (%T)", x, v)
+	}
+}
